@@ -282,6 +282,22 @@ class Concat(Expr):
                 self._kwargs,
                 *frames,
             )
+            if (
+                self.axis == 0
+                and self.ndim == result.ndim == 2
+                and self._meta.columns.is_unique
+            ):
+                # An input that is left without columns no longer takes part in
+                # the dtype promotion (see _meta), although the selected columns
+                # are missing (NaN) in its rows: keep the announced dtypes
+                dtypes = {
+                    col: self._meta[col].dtype
+                    for col in result.columns
+                    if result._meta[col].dtype != self._meta[col].dtype
+                    and not isinstance(self._meta[col].dtype, pd.CategoricalDtype)
+                }
+                if dtypes:
+                    result = AsType(result, dtypes=dtypes)
 
             if result.columns == _convert_to_list(parent.operand("columns")):
                 if result.ndim == parent.ndim:
